@@ -785,6 +785,19 @@ fn gen_word(rng: &mut Rng, prev: Option<u16>, wide: bool) -> u16 {
     v & mask
 }
 
+/// how many buffer-fulls a burst spans: mostly a few, sometimes around a power of two
+/// (a transport may group its writes), now and then anything up to 64
+fn gen_mult(rng: &mut Rng) -> u64 {
+    match rng.below(8) {
+        0..=3 => 1 + rng.below(5),
+        4 | 5 => {
+            let p = 1u64 << (2 + rng.below(4));
+            p - 1 + rng.below(3)
+        }
+        _ => 1 + rng.below(64),
+    }
+}
+
 pub fn gen_xcase(rng: &mut Rng, prop: &str, seed: u64, with_faults: bool, thorough: bool) -> XCase {
     let kind = if prop == "C06" {
         let n_hint = 1 + rng.below(4) as u32;
@@ -899,12 +912,12 @@ pub fn gen_xcase(rng: &mut Rng, prop: &str, seed: u64, with_faults: bool, thorou
                             0 => 0,
                             1 => 1,
                             2 => cap,
-                            3 => cap * (1 + rng.below(3)),
-                            4 => cap * (1 + rng.below(3)) + 1,
+                            3 => cap * gen_mult(rng),
+                            4 => cap * gen_mult(rng) + 1,
                             5 => cap.saturating_sub(1),
                             _ => rng.below(3 * cap + 3),
                         }
-                        .min(600);
+                        .min(1200);
                         let data: Vec<u16> = (0..px * n as u64)
                             .map(|_| {
                                 let v = gen_word(rng, prev, wide);
@@ -934,11 +947,11 @@ pub fn gen_xcase(rng: &mut Rng, prop: &str, seed: u64, with_faults: bool, thorou
                             2 => cap.saturating_sub(1),
                             3 => cap,
                             4 => cap + 1,
-                            5 => cap * (2 + rng.below(4)),
-                            6 => cap * (2 + rng.below(4)) + 1 + rng.below(cap),
+                            5 => cap * gen_mult(rng),
+                            6 => cap * gen_mult(rng) + 1 + rng.below(cap),
                             _ => rng.below(4 * cap + 4),
                         };
-                        let mut count = count.min(3000) as u32;
+                        let mut count = count.min(8000) as u32;
                         if matches!(kind, XKind::Spi { buf } if buf >= 100_000) {
                             count = *rng.pick(&[1u32, 1000, 65_535, 65_536, 65_537, 76_800, 100_000]);
                         }
